@@ -222,6 +222,9 @@ def gen_history(seed, idx, tier):
         else:
             src, w, kind, qk = rs.choice(objs)
             ops.append(["write", src, rs.bits(w)])
+    if rs.below(6) == 0:
+        # one flood of distinct parametrisations somewhere in the history (drawn last: the rest of the history is as before)
+        ops.insert(rs.range(0, len(ops)), ["flood", rs.choice(["Arr", "ArrBit", "U", "S", "BV", "QU", "QArr", "P"]), rs.choice(widths[:1] + [3]), rs.choice([40, 130, 260, 520, 1100])])
     return ops
 
 
